@@ -237,4 +237,5 @@ def _real_codecs():
     return ''
 
 
-VALIDATE = [_real_codecs]
+from vf.validate.stubs import ALL as _STUBS  # noqa: E402
+VALIDATE = [_real_codecs] + list(_STUBS)
